@@ -1,65 +1,226 @@
-"""Virtual-time stand-in for twisted.internet.reactor: never runs anything by itself."""
+"""Virtual-time stand-in for twisted.internet.reactor (environment model, DESIGN.md section 7, T1-T6).
+
+It never runs anything by itself: the driver fires timers, resolves connection attempts,
+delivers data and completes closes explicitly, so every schedule is reproducible.
+"""
 from . import error
+
+
 class _World(object):
-    def __init__(self): self.reset()
+    def __init__(self):
+        self.reset()
+
     def reset(self):
-        self.now = 0.0; self.calls = []; self.connectors = []; self.errors = []
+        self.now = 0.0
+        self.calls = []        # every DelayedCall ever created (pending ones are .active())
+        self.connectors = []   # every connectTCP call, in order
+        self.errors = []       # exceptions that escaped a reactor callback
+        self.listening = []
+        self.ran = False
+
+
 W = _World()
+
+
 class DelayedCall(object):
-    def __init__(self, t, f, a, kw): self.time, self.f, self.a, self.kw = t, f, a, kw; self.called = self.cancelled = False
+    def __init__(self, t, f, a, kw):
+        self.time, self.f, self.a, self.kw = t, f, a, kw
+        self.called = self.cancelled = False
+
     def cancel(self):
-        if self.cancelled: raise error.AlreadyCancelled()
-        if self.called: raise error.AlreadyCalled()
+        if self.cancelled:
+            raise error.AlreadyCancelled()
+        if self.called:
+            raise error.AlreadyCalled()
         self.cancelled = True
+
     def reset(self, s):
-        if self.cancelled: raise error.AlreadyCancelled()
-        if self.called: raise error.AlreadyCalled()
+        if self.cancelled:
+            raise error.AlreadyCancelled()
+        if self.called:
+            raise error.AlreadyCalled()
         self.time = W.now + s
-    def active(self): return not (self.cancelled or self.called)
+
+    def active(self):
+        return not (self.cancelled or self.called)
+
+    def getTime(self):
+        return self.time
+
     def fire(self):
         assert self.active()
         self.called = True
-        try: self.f(*self.a, **self.kw)
-        except Exception as e: W.errors.append(repr(e))
+        try:
+            self.f(*self.a, **self.kw)
+        except Exception as e:      # Twisted logs it and carries on
+            W.errors.append(repr(e))
+
+
 def callLater(s, f, *a, **kw):
-    dc = DelayedCall(W.now + s, f, a, kw); W.calls.append(dc); return dc
-def callFromThread(f, *a, **kw): f(*a, **kw)
+    dc = DelayedCall(W.now + s, f, a, kw)
+    W.calls.append(dc)
+    return dc
+
+
+def callFromThread(f, *a, **kw):
+    # assumption A-REST: REST handlers are atomic w.r.t. reactor callbacks
+    f(*a, **kw)
+
+
+def seconds():
+    return W.now
+
+
 class Addr(object):
-    def __init__(self, host, port): self.host, self.port = host, port
+    def __init__(self, host, port):
+        self.host, self.port = host, port
+
+
 class Reason(object):
-    def __init__(self, e): self.value = e
-    def getErrorMessage(self): return repr(self.value)
+    def __init__(self, e):
+        self.value = e
+
+    def getErrorMessage(self):
+        return repr(self.value)
+
+    def check(self, *types):
+        return isinstance(self.value, types)
+
+
 class Transport(object):
-    def __init__(self, connector): self.connector = connector; self.connected = 1; self.disconnecting = 0; self.written = []
-    def setTcpNoDelay(self, x): pass
-    def getHost(self): return Addr('10.0.0.1', 40000)
-    def getHandle(self): raise NotImplementedError
+    def __init__(self, connector, local):
+        self.connector = connector
+        self.local = local
+        self.connected = 1
+        self.disconnecting = 0
+        self.written = []      # [(virtual time, bytes)]
+
+    def setTcpNoDelay(self, x):
+        pass
+
+    def getHost(self):
+        return Addr(self.local, 40000 + len(W.connectors))
+
+    def getPeer(self):
+        return Addr(self.connector.host, self.connector.port)
+
+    def getHandle(self):
+        raise NotImplementedError
+
     def write(self, data):
-        if not isinstance(data, bytes): raise TypeError('Data must be bytes')
-        if not self.connected: return
-        self.written.append(data)
+        if not isinstance(data, (bytes, bytearray)):
+            raise TypeError('Data must be bytes')
+        if not self.connected:
+            return                      # T3: silently dropped
+        self.written.append((W.now, bytes(data)))
+
+    def writeSequence(self, seq):
+        for d in seq:
+            self.write(d)
+
     def loseConnection(self):
-        if self.connected and not self.disconnecting: self.disconnecting = 1
+        if self.connected and not self.disconnecting:
+            self.disconnecting = 1
+
+    def abortConnection(self):
+        self.loseConnection()
+
+
 class Connector(object):
     def __init__(self, host, port, factory, timeout, bindAddress):
         self.host, self.port, self.factory, self.timeout = host, port, factory, timeout
-        self.state = 'connecting'; self.transport = None; self.protocol = None; self.deadline = W.now + timeout
+        self.bindAddress = bindAddress
+        self.state = 'connecting'
+        self.transport = None
+        self.protocol = None
+        self.created = W.now
+        self.deadline = W.now + timeout
+        self.aborted = False       # stopConnecting()/disconnect() called by the application
+
+    # -- application side (Twisted IConnector)
+    def stopConnecting(self):
+        if self.state != 'connecting':
+            raise error.NotConnectingError()
+        self.state = 'disconnected'
+        self.aborted = True
+        self.factory.clientConnectionFailed(self, Reason(error.UserError()))
+
+    def disconnect(self):
+        if self.state == 'connecting':
+            self.stopConnecting()
+        elif self.state == 'connected':
+            self.transport.loseConnection()
+
+    def getDestination(self):
+        return Addr(self.host, self.port)
+
+    # -- environment side (driven by the harness)
     def succeed(self):
         assert self.state == 'connecting'
         self.state = 'connected'
         self.protocol = self.factory.buildProtocol(Addr(self.host, self.port))
-        self.transport = Transport(self)
-        self.protocol.makeConnection(self.transport)
+        local = self.bindAddress[0] if self.bindAddress else '10.0.0.1'
+        self.transport = Transport(self, local)
+        try:
+            self.protocol.makeConnection(self.transport)
+        except Exception as e:
+            W.errors.append(repr(e))
+
     def fail(self, exc):
         assert self.state == 'connecting'
         self.state = 'disconnected'
-        self.factory.clientConnectionFailed(self, Reason(exc))
+        try:
+            self.factory.clientConnectionFailed(self, Reason(exc))
+        except Exception as e:
+            W.errors.append(repr(e))
+
     def lose(self, exc):
         assert self.state == 'connected'
         self.state = 'disconnected'
         self.transport.connected = 0
-        self.protocol.connectionLost(Reason(exc))
-        self.factory.clientConnectionLost(self, Reason(exc))
+        try:
+            self.protocol.connectionLost(Reason(exc))
+        except Exception as e:
+            W.errors.append(repr(e))
+        try:
+            self.factory.clientConnectionLost(self, Reason(exc))
+        except Exception as e:
+            W.errors.append(repr(e))
+
+    def deliver(self, data):
+        assert self.state == 'connected'
+        try:
+            self.protocol.dataReceived(data)
+        except Exception as e:
+            W.errors.append(repr(e))
+
+
 def connectTCP(host, port, factory, timeout=30, bindAddress=None):
-    c = Connector(host, port, factory, timeout, bindAddress); W.connectors.append(c); return c
-def suggestThreadPoolSize(n): pass
+    c = Connector(host, port, factory, timeout, bindAddress)
+    W.connectors.append(c)
+    try:
+        factory.startedConnecting(c)
+    except AttributeError:
+        pass
+    return c
+
+
+def listenTCP(port, factory, backlog=50, interface=''):
+    W.listening.append((port, interface))
+    return None
+
+
+def suggestThreadPoolSize(n):
+    pass
+
+
+def getThreadPool():
+    return None
+
+
+def run(*a, **kw):
+    W.ran = True
+
+
+def stop():
+    pass
